@@ -440,10 +440,13 @@ def val_of(x):
     raise Unsupported('no Val for %r' % (x,))
 
 
+NO_MERGE = [False]      # refutation mode may run path by path: one conjunctive query per path is far easier to satisfy
+
+
 def merge_states(items):
     """state merging at control-flow joins: [(state, value or None)] -> merged list (length 1 when possible).
     Guards are the conjunctions of the fork literals taken since the common prefix of the path conditions."""
-    if len(items) <= 1:
+    if len(items) <= 1 or NO_MERGE[0]:
         return items
     states = [s for s, _ in items]
     vals = [v for _, v in items]
